@@ -2345,6 +2345,10 @@ def run(P, rep, tier):
     r03a(P, rep)
     r036(P, rep, r03c(P, rep))
     r03g_fold(P, rep)
+    from ..lib_c03proto import r_prototype_scope
+    from ..lib_c03vla import r_vla_once
+    r_prototype_scope(P, rep)
+    r_vla_once(P, rep)
     # every statement form leaves the machine stack and the x87 register stack as it found them: a loop whose increment or condition
     # leaks a register-stack slot per iteration stops early (its condition turns NaN after eight iterations). C20's gen_stmt rule, re-used.
     # (c12 runs c03.run into a sub-report and c20 into another: guard against re-entrance through c20 -> ... is not needed, c20 imports only c04)
